@@ -17,3 +17,16 @@ func (k Keeper) GetAssetPrice(ctx sdk.Context, asset string) (math.LegacyDec, er
 	}
 	return price.Price, nil
 }
+
+// GetAssetPriceAndDecimals returns the oracle price of one whole token of the denom and the denom's decimals
+func (k Keeper) GetAssetPriceAndDecimals(ctx sdk.Context, asset string) (math.LegacyDec, uint64, error) {
+	info, found := k.oracleKeeper.GetAssetInfo(ctx, asset)
+	if !found {
+		return math.LegacyZeroDec(), 0, fmt.Errorf("asset price %s not found", asset)
+	}
+	price, found := k.oracleKeeper.GetAssetPrice(ctx, info.Display)
+	if !found {
+		return math.LegacyZeroDec(), 0, fmt.Errorf("asset price %s not found", asset)
+	}
+	return price.Price, info.Decimal, nil
+}
